@@ -63,3 +63,15 @@ def enter():
 
 def scratch_path(*parts):
     return os.path.join(enter(), *parts)
+
+
+_counter = 0
+
+
+def tmpfile(suffix):
+    """unique file path inside the scratch dir (workers are forked and share the directory)"""
+    global _counter
+    _counter += 1
+    d = os.path.join(enter(), f'p{os.getpid()}')
+    os.makedirs(d, exist_ok=True)
+    return os.path.join(d, f'f{_counter % 8}{suffix}')
